@@ -1,4 +1,6 @@
 """C18 — invalid requests are reported as errors; nothing is emitted and nothing panics."""
+import os
+
 from .. import modules
 
 
@@ -21,7 +23,18 @@ def run(ctx):
         return req.startswith("c18 ") and (" e 0 " not in " " + resp + " " or " fn f2" in req or " glob " in req)
 
     # known findings account for many mismatching lines: keep them all so that none hides a new one
-    ctx.differential("c18", n, nontrivial=nontrivial, max_report=10**7)
+    # per-process file names: two runs of this check at the same time must not share ops/impl/model files
+    tag = "-%d" % os.getpid()
+    mism = ctx.differential("c18", n, nontrivial=nontrivial, max_report=10**7, tag=tag)
+    dist = ctx.coverage.get("input_distribution", {})
+    if "c18" + tag in dist:
+        dist["c18"] = dist.pop("c18" + tag)
+    if mism == 0:
+        for ext in (".ops", ".impl", ".model", ".stats.json"):
+            try:
+                os.remove(os.path.join(ctx.dir, "c18" + tag + ext))
+            except OSError:
+                pass
     ctx.coverage["exhaustive"] = False
     ctx.coverage["rule"] = (
         "random histories of 1-80 builder calls (about 30% valid, 15% valid but for one compile-time fault, 25% with "
